@@ -168,6 +168,7 @@ func runC06(c *an.Ctx, p *an.Prog, thorough bool) {
 	// "a session token issued by this agent instance", "issued only in response to a successful password authentication":
 	// the sealing key is this instance's own CSPRNG output (the rule instance of C07.1)
 	sessionKeyRule(c, p, "C06.9")
+	authTurnRule(c, p, "C06.10")
 	roots := frontendRoots(p)
 	var handlers []Root
 	for _, r := range roots {
